@@ -1,14 +1,93 @@
-// ===== prelude/gui.rs — TRUSTED: the two unsafe primitives of src/bin/mstsc-rs.rs (rule R5) =====
-/// `transmute_vec::<u8, u32>`: re-types the allocation; length / 4 words, little endian (x86/ARM LE targets).
-/// NOT modelled: the allocation is later freed with a different layout (align 1 vs 4) — undefined behaviour that
-/// no contract can express; listed as an unchecked assumption.
+// ===== prelude/gui.rs — TRUSTED: the unsafe primitives of src/bin/mstsc-rs.rs (rule R5) =====
+// `transmute_vec<S, T>` itself is NOT a stub any more: its real body is verified (unit gui) above the stand-ins
+// below, which carry the safety contracts of the raw operations it is made of.
+
+/// the 32-bit little-endian words of a byte string (x86/ARM LE targets)
 pub open spec fn words_le(b: Seq<u8>) -> Seq<u32> {
     Seq::new((b.len() / 4) as nat, |i: int| u32_le(b[4 * i], b[4 * i + 1], b[4 * i + 2], b[4 * i + 3]))
 }
+
+/// ghost capacity of a vector (`Vec::capacity` has no Verus specification; the allocator-generic signature that an
+/// `assume_specification` needs is behind the unstable `allocator_api` feature)
+pub uninterp spec fn vec_capacity<T>(v: &Vec<T>) -> nat;
+
+/// `vec.capacity()`.  std guarantees: capacity >= len, and the allocation never exceeds isize::MAX bytes
+/// (for a zero-sized element type the capacity is usize::MAX and the allocation is 0 bytes).
 #[verifier::external_body]
-pub fn transmute_vec(vec: Vec<u8>) -> (r: Vec<u32>)
-    ensures r@ == words_le(vec@)
-{ unimplemented!() }
+pub fn capacity_of<T>(v: &Vec<T>) -> (r: usize)
+    ensures
+        r == vec_capacity(v),
+        v@.len() <= r,
+        r * vstd::layout::size_of::<T>() <= isize::MAX,
+{ v.capacity() }
+
+/// `core::mem::forget(x)`: no effect on anything a contract can observe.
+/// NOT modelled: that the forgotten vector no longer frees the buffer (a transmute_vec without the `forget` would be a
+/// double free; ownership of the raw allocation is outside these contracts).
+pub assume_specification<T> [core::mem::forget] (t: T);
+
+/// Opaque token standing for the raw pointer `vec.as_mut_ptr()` of a `Vec<S>`, currently typed `*mut T`.
+/// Ghost facts attached to it: the number of initialised bytes behind it (`bytes`), the size of the allocation in bytes
+/// (`cap_bytes`) and the elements of the source vector at the time the pointer was taken (`src`).
+#[verifier::external_body]
+#[verifier::reject_recursive_types(S)]
+#[verifier::reject_recursive_types(T)]
+pub struct RawBuf<S, T> { p: *mut T, s: core::marker::PhantomData<S> }
+
+impl<S, T> RawBuf<S, T> {
+    pub uninterp spec fn bytes(&self) -> nat;
+    pub uninterp spec fn cap_bytes(&self) -> nat;
+    pub uninterp spec fn src(&self) -> Seq<S>;
+
+    /// `ptr as *mut U`: same address, same allocation; only the static element type changes.
+    #[verifier::external_body]
+    pub fn cast<U>(self) -> (r: RawBuf<S, U>)
+        ensures r.bytes() == self.bytes(), r.cap_bytes() == self.cap_bytes(), r.src() == self.src(),
+    { RawBuf { p: self.p as *mut U, s: core::marker::PhantomData } }
+}
+
+/// `vec.as_mut_ptr()`: the vector is unchanged; the token describes the memory the vector owns:
+/// len * size_of::<S>() initialised bytes inside an allocation of capacity * size_of::<S>() bytes (len <= capacity and
+/// an allocation of at most isize::MAX bytes are invariants of Vec).
+#[verifier::external_body]
+pub fn vec_as_mut_ptr<S>(vec: &mut Vec<S>) -> (r: RawBuf<S, S>)
+    ensures
+        final(vec)@ == old(vec)@,
+        vec_capacity(final(vec)) == vec_capacity(old(vec)),
+        r.bytes() == old(vec)@.len() * vstd::layout::size_of::<S>(),
+        r.cap_bytes() == vec_capacity(old(vec)) * vstd::layout::size_of::<S>(),
+        r.src() == old(vec)@,
+        old(vec)@.len() <= vec_capacity(old(vec)),
+        r.cap_bytes() <= isize::MAX,
+{ RawBuf { p: vec.as_mut_ptr(), s: core::marker::PhantomData } }
+
+/// the first `len` values of type T read from the memory that holds the elements `src` of type S (target dependent)
+pub uninterp spec fn retyped<S, T>(src: Seq<S>, len: nat) -> Seq<T>;
+
+/// bytes re-read as 32-bit words on a little-endian target: word i is made of bytes 4i .. 4i+3 (every bit pattern is a valid u32)
+#[verifier::external_body]
+pub proof fn axiom_retyped_u8_u32(b: Seq<u8>, len: nat)
+    requires len * 4 <= b.len()
+    ensures retyped::<u8, u32>(b, len) == words_le(b).subrange(0, len as int)
+{ }
+
+/// `Vec::from_raw_parts(ptr, len, capacity)`.  The precondition is the part of std's safety contract that is about
+/// sizes: the `len` elements lie inside the initialised bytes, the `capacity` elements inside the allocation, len <= capacity.
+/// NOT checked (listed as unchecked assumptions of C19): std also wants the alignment of T to be the one the block was
+/// allocated with (u8 -> u32: align 1 vs 4) and `capacity * size_of::<T>()` to be EXACTLY the allocated size (the block is later
+/// freed with that layout); the contract below only asks for `<=`, i.e. "describes no more memory than the source owns" —
+/// with `==` the real transmute_vec is not provable: capacity * size_of::<S>() need not be a multiple of size_of::<T>().
+/// Also not checked: that the first `len` values are valid values of T (true for the integer types used here).
+#[verifier::external_body]
+pub fn vec_from_raw_parts<S, T>(ptr: RawBuf<S, T>, len: usize, capacity: usize) -> (r: Vec<T>)
+    requires
+        len * vstd::layout::size_of::<T>() <= ptr.bytes(),
+        capacity * vstd::layout::size_of::<T>() <= ptr.cap_bytes(),
+        len <= capacity,
+    ensures
+        r@.len() == len,
+        r@ == retyped::<S, T>(ptr.src(), len as nat),
+{ unsafe { Vec::from_raw_parts(ptr.p, len, capacity) } }
 
 /// `ptr::copy_nonoverlapping(src.as_ptr().offset(s), dst.as_mut_ptr().offset(d), n)` for two live, distinct
 /// Vec<u32>: its safety contract is the precondition; its effect is the element-wise copy.
